@@ -164,6 +164,9 @@ def worker(case, led):
                 ov = a.conj().dot(b)
                 led.check(abs(ov - np.vdot(da, db)) <= TOL * max(1, abs(ov)), "post:MatrixProduct.dot:overlap", "MatrixProduct.dot",
                           f"<a|b>={ov} vs {np.vdot(da, db)}", key + ("dot",), fields, rep, nontriv)
+                ang = a.angle(b)
+                led.check(abs(ang - abs(np.vdot(da, db))) <= TOL * max(1, abs(ang)), "post:MatrixProduct.angle:modulus_of_the_overlap", "MatrixProduct.angle",
+                          f"|<a|b>|={ang} vs {abs(np.vdot(da, db))}", key + ("angle",), fields, rep, nontriv)
                 dist = a.distance(b)
                 dref = float(np.linalg.norm(da - db))
                 led.check(abs(dist - dref) <= 1e-7 * max(1.0, dref), "post:MatrixProduct.distance:dense_distance", "MatrixProduct.distance",
